@@ -32,7 +32,7 @@ class K04a(Harness):
 
     def signature(self, values, p, detail):
         if detail.get("kind") == "exception":
-            return "exception:%s@%s" % (detail.get("type"), (detail.get("where") or ["?"])[-1])
+            return "exception:%s@%s" % (detail.get("type"), __import__("re").sub(r":\d+:", ":", (detail.get("where") or ["?"])[-1]))
         return "roundtrip"
 
 
@@ -87,7 +87,7 @@ class K04c(Harness):
 
     def signature(self, values, p, detail):
         if detail.get("kind") == "exception":
-            return "exception:%s@%s" % (detail.get("type"), (detail.get("where") or ["?"])[-1])
+            return "exception:%s@%s" % (detail.get("type"), __import__("re").sub(r":\d+:", ":", (detail.get("where") or ["?"])[-1]))
         s = self.describe(values, p)["second_line"]
         shape = "".join("/" if c == "/" else "*" if c == "*" else "w" if c.isspace() else "x" for c in s)
         return "vc:%s:%s:%s" % (",".join(sorted(detail.get("failed", []))), "in_comment" if p["open"] else "plain", shape)
